@@ -295,6 +295,29 @@ def _cli_obs(st):
     return ob
 
 
+def docstring_exec_part(rep, tier):
+    """C02 on descriptions: every description MC_Desc enumerates (character classes: quotes,
+    backslashes, CR, NUL, non-ASCII; at every position up to the bound) is parsed, the module
+    generated and executed.  Docstring.tla predicts whether the emitted class source reads back;
+    a module that does not execute is a C02 violation whether or not the model predicted it
+    (design level if it did, drift adjudicated by the unconditional requirement otherwise)."""
+    import checks_desc
+    t = checks_desc.TIERS[tier]
+    cfg = f"CONSTANTS MaxLen = {t['MaxLen']}\nSPECIFICATION Spec\nINVARIANT Inv\nCHECK_DEADLOCK FALSE\n"
+    lines, meta = df._cached_tlc("desc", cfg, module="MC_Desc", workers=8)
+    work = [(st, v) for st in lines for v in range(t["variants"])]
+    obs = drive.pmap(checks_desc.observe, work, chunksize=64)
+    bad = 0
+    for (st, v), ob in zip(work, obs):
+        if "err" in ob or not ob["ok"]:
+            bad += 1
+            how = "design level: the specification's emitter predicts it" if not st["ok"] else "the specification's emitter predicts a module that executes"
+            rep.violation(("C02", "generated-module-does-not-execute", "description", checks_desc.features(st["s"])),
+                          f"generated-module-does-not-execute: object schema with description {ob['text']!r}: "
+                          f"{ob.get('py_err') or ob.get('err')} ({how})", dict(state=st, observed=ob))
+    return dict(descriptions=len(work), states=meta["distinct"], not_executing=bad)
+
+
 def cli_model_part(rep, tier):
     """MC_Cli: how the input argument becomes the URI given to main() and the output file name;
     every argument of <= 5 (6) tokens is replayed on parse_input_arg / parse_args."""
@@ -488,6 +511,7 @@ def collect(rep, pid, tier, replay_file=None):
         pym = pymodule_model_part(rep, tier)
         extra["pymodule_model"] = pym
         extra["cli_model"] = cli_model_part(rep, tier)
+        extra["docstring_exec"] = docstring_exec_part(rep, tier)
     if not replay_file and len(nontrivial) < 2:
         raise MachineryError("vacuity: no non-trivial case")
     coverage = dict(
